@@ -2,4 +2,5 @@ SPECIFICATION Spec
 CONSTANTS MaxLen = 4
  Profile = "stepper"
  EnvSet = "clean"
+ ExtraCheck <- CldbCheck
 CHECK_DEADLOCK FALSE
